@@ -202,6 +202,10 @@ class Lexer(object):
         # precedes the current real token (ECMA-262 7.4, 7.9.1).
         self._lt_pending = False
         self.cur_token_lt = False
+        # whether the current real token is an IdentifierName used as a
+        # property name (follows a `.`): reserved words in that position
+        # behave as identifiers (11.2.1).
+        self.cur_token_is_property = False
         self.next_tokens = []
         self.token_stack = [[None, []]]
         self.newline_idx = [0]
@@ -320,8 +324,9 @@ class Lexer(object):
                 self.prev_token
             )
             is_division_allowed = (
-                check_token is not None and
-                check_token.type in TOKENS_THAT_IMPLY_DIVISON
+                check_token is not None and (
+                    check_token.type in TOKENS_THAT_IMPLY_DIVISON or
+                    self.cur_token_is_property)
             ) and (
                 self.token_stack[-1][0] is None or (
                     # if the token on the stack is the same, the
@@ -351,6 +356,9 @@ class Lexer(object):
         self.cur_token = new_token
         if (self.cur_token and
                 self.cur_token.type not in DIVISION_SYNTAX_MARKERS):
+            self.cur_token_is_property = (
+                self.cur_token_real is not None and
+                self.cur_token_real.type == 'PERIOD')
             self.cur_token_real = self.cur_token
             self.cur_token_lt = self._lt_pending
             self._lt_pending = False
@@ -375,6 +383,7 @@ class Lexer(object):
         return token
 
     def _get_update_token(self):
+        prev_is_property = self.cur_token_is_property
         self._set_tokens(self.get_lexer_token())
 
         if self.cur_token is not None:
@@ -384,7 +393,8 @@ class Lexer(object):
                 # the parentheses are marked.  Otherwise just push
                 # into the inner marker list.
                 if (self.prev_token and
-                        self.prev_token.type in IMPLIED_BLOCK_IDENTIFIER):
+                        self.prev_token.type in IMPLIED_BLOCK_IDENTIFIER and
+                        not prev_is_property):
                     self.token_stack.append([self.cur_token, []])
                 else:
                     self.token_stack[-1][1].append(self.cur_token)
@@ -411,6 +421,7 @@ class Lexer(object):
         # See section 7.9.1 ECMA262
         if (self._is_line_terminating(self.cur_token)
             and self.cur_token_real is not None
+            and not self.cur_token_is_property
             and self.cur_token_real.type in ['BREAK', 'CONTINUE',
                                              'RETURN', 'THROW']):
             # the keyword is consumed by this; further line terminators
